@@ -210,6 +210,15 @@ def has_summary_tables(e):
   return any(col.raw_get(r) for r in e.tables['_grist_Tables'].row_ids)
 
 
+def has_dependent_triggers(e):
+  """Some column has a trigger formula with recalcDeps: the clean-up of a referring cell may then legitimately make the
+  engine recalculate other cells of that row, so the cell-by-cell comparison of a removal does not apply (oracle (i)
+  still does)."""
+  t = e.tables['_grist_Tables_column']
+  deps, formula = t.get_column('recalcDeps'), t.get_column('formula')
+  return any(deps.raw_get(r) and formula.raw_get(r) for r in t.row_ids)
+
+
 def want_without(kind, v, removed):
   if kind == 'KRef':
     return 0 if (type(v) is int and v in removed) else v
@@ -238,7 +247,8 @@ class Oracle(object):
     sr = single_removal(bundle)
     # the exact comparison is for documents without summary tables: their upkeep (regrouping, auto-removal of
     # empty groups) legitimately rewrites other rows; oracle (i) below still covers those documents
-    if sr and sr[0] in e.tables and not sr[0].startswith('_grist_') and not has_summary_tables(e):
+    if sr and sr[0] in e.tables and not sr[0].startswith('_grist_') and not has_summary_tables(e) \
+       and not has_dependent_triggers(e):
       tok['single'] = sr
       tok['cells'] = cells_of(e)
       if self.collect_worlds:
